@@ -206,15 +206,17 @@ def check_case(src, plan):
             else:
                 fail(f"result({key}): analysis result changes after inserting {kinds}", ["result-" + key, "differs"] + kinds, r0[key], r1[key])
     # strict
-    try:
-        a3 = deepcopy(ast2)
-        rs = vlib.with_timeout(lambda: Analysis.run(a3, strict=True), 15)
-        if name in rs.relations:
-            fail("strict: function with an unsupported statement is analysed in strict mode", ["strict-analysed"] + kinds, "absent", "present")
-    except vlib.CaseTimeout:
-        pass
-    except Exception as e:
-        fail(f"strict: Analysis.run(strict=True) raises {type(e).__name__}", ["strict", "raises", type(e).__name__] + kinds, "absent", vlib.exc_sig(e))
+    for fin in (False, True):       # strict refuses whatever the other options are
+        try:
+            a3 = deepcopy(ast2)
+            rs = vlib.with_timeout(lambda: Analysis.run(a3, strict=True, fin=fin), 15)
+            if name in rs.relations:
+                fail(f"strict: function with an unsupported statement is analysed in strict mode (fin={fin})",
+                     ["strict-analysed"] + ([] if not fin else ["fin"]) + kinds, "absent", "present")
+        except vlib.CaseTimeout:
+            pass
+        except Exception as e:
+            fail(f"strict: Analysis.run(strict=True, fin={fin}) raises {type(e).__name__}", ["strict", "raises", type(e).__name__] + kinds, "absent", vlib.exc_sig(e))
     try:
         a4 = deepcopy(ast2)
         g4 = a4.ext[-1]
